@@ -253,7 +253,11 @@ def evaluate(cases, res):
         t = case["t"]
         if t == "rt":
             f = c02.impl_env(case)
-            b = f.bytes
+            try:
+                b = f.bytes
+            except Exception as e:  # noqa: BLE001 -- a frame built from a message must serialise
+                impl[ci] = dict(ser_err=type(e).__name__)
+                continue
             impl[ci] = dict(frame=f, bytes=b)
             rt_idx.append(ci)
             streams.append(b + bytes.fromhex(case["rest"]))
@@ -399,7 +403,9 @@ def evaluate(cases, res):
         if any(a == "bad-op" for _, a in answers):
             res.fail("corr", pub, "model answers", answers, "driver rejected a request line")
             continue
-        if t == "rt":
+        if t == "rt" and "ser_err" in impl[ci]:
+            res.fail("spec", pub, "serialised bytes", dict(raised=impl[ci]["ser_err"]), "serialising a frame built from its payload raised")
+        elif t == "rt":
             compare_rt(pub, impl[ci], answers, res)
         elif t == "wire":
             compare_wire(pub, impl[ci], answers, res)
@@ -448,8 +454,12 @@ def compare_rt(case, o, answers, res):
         if type(g) is not fi.frame_class(case["code"]):
             res.fail("spec", case, fi.frame_class(case["code"]).__name__, type(g).__name__, "read back as a frame of another kind")
             return
-        if g.bytes != b:
-            res.fail("spec", case, b.hex(), g.bytes.hex(), "re-serialising the received frame does not reproduce its bytes")
+        try:
+            again = g.bytes
+        except Exception as e:  # noqa: BLE001
+            again = ("!" + type(e).__name__).encode()
+        if again != b:
+            res.fail("spec", case, b.hex(), again.hex(), "re-serialising the received frame does not reproduce its bytes")
             return
         if not (g == o["frame"]) or (g != o["frame"]):
             res.fail("spec", case, "received == sent", "unequal", "the frame read back does not compare equal to the frame that was serialised")
@@ -473,7 +483,13 @@ def compare_wire(case, o, answers, res):
             canon.append(("D",) + tuple(fl[:5]) + (hexs(fl[5]), n))
             consumed = stream[pos:pos + n]
             fr = consumed[consumed.index(0x68):]
-            again = f.bytes
+            try:
+                again = f.bytes
+            except Exception as e:  # noqa: BLE001 -- serialising a received frame must not raise
+                res.fail("spec", case, fr.hex(), dict(raised=type(e).__name__), "re-serialising a received frame raised")
+                k += 1
+                pos += n
+                continue
             res.count("wire:last=" + ("0x16" if fr[-1] == 0x16 else "other"))
             if fr[-1] == 0x16 and again != fr:
                 res.fail("spec", case, fr.hex(), again.hex(), "re-serialising a frame received from well-formed bytes does not reproduce them")
@@ -588,8 +604,10 @@ def run(ctx):
                 "fresh and after .bytes / .data filled the lazy caches. distinct = distinct argument tuples")
     kinds = fi.kinds()
     cases = []
+    corpus_scenarios = []
     for fn, ln in load_corpus("C03"):
-        cases.append(json.loads(ln))
+        c = json.loads(ln)
+        (corpus_scenarios if c.get("t") == "frame_reuse" else cases).append(c)
     cases.extend(gen_rt(rng, tier, kinds))
     cases.extend(gen_wire(rng, tier))
     nets = list(c02.gen_net(rng, tier))
@@ -621,6 +639,7 @@ def run(ctx):
                      "fresh frame built from the same arguments (modelled by PyFrame.fillMessage/fillData, theorem pyEq_fill_fresh); "
                      "count in input_distribution['eq:same-args-unequal-after-one-sided-fill …']")
     import reuse
+    reuse.frame_scenarios(res, corpus_scenarios)
     reuse.frame_reuse(res, random.Random(ctx["seed"] * 31 + 303), 600 if tier == "quick" else 20000)
     res.notes.append("object re-use: a frame that was serialised, updated through its setters and serialised again must equal a fresh frame built from the final content (bytes, length field, len())")
     order_failures(res)
@@ -633,6 +652,10 @@ def replay(ctx):
     res = Result("C03")
     res.rule = "replay of one recorded case"
     case = f["input"]
+    if case.get("t") == "frame_reuse":
+        import reuse
+        reuse.frame_scenarios(res, [case])
+        return res
     evaluate([case], res)
     res.sample(dict(case=case, failures=len(res.failures)))
     return res
